@@ -9,6 +9,7 @@ from harness.ns import QNAMES
 
 ID = "C07"
 LEAN_MODULES = ["Pypika.Props.C07", "Pypika.Whole", "Pypika.WholeStr"]
+TRACE_BUILDER = True   # builder calls made by this check are also run through Pypika.B.step (harness/trace.py)
 THEOREMS = ["Pypika.C07.setDefaults_outer_wins", "Pypika.C07.setDefaults_governs", "Pypika.C07.top_level_conventions",
             "Pypika.C07.nested_query_ctx", "Pypika.C07.setop_ctx", "Pypika.C07.fn_ctx", "Pypika.C07.interval_form",
             "Pypika.Whole.quote_uniform_all", "Pypika.Whole.ident_quote_uniform", "Pypika.Whole.ident_quote_uniform_query",
